@@ -23,4 +23,20 @@ PROPS = {
     },
 }
 
+PROPS["C12"] = {
+    "theorems": ["Nego.nego_agree", "Nego.enabled_iff", "Nego.enabled_iff_client", "Nego.takeover_iff", "Nego.bits_range", "Nego.bits_are_servers",
+                 "Nego.threshold_zero_under_takeover", "Nego.threshold_without_takeover", "Nego.headers_sent", "Nego.parse_perm_ws",
+                 "Nego.parse_duplicate", "Nego.parse_bits_range", "Nego.parse_unknown_ignored", "Nego.atoi_itoa_roundtrip"],
+    "suites": ["nego"],
+    "trusted": ["strings.Split/SplitN/TrimSpace/Contains/Join, strconv.Atoi/Itoa as modelled on List Char (TrimSpace: ASCII white space only)",
+                "net/http carries the Sec-WebSocket-Extensions value unchanged between the endpoints (sampled by real handshakes in the suite)"],
+    "assumptions": ["non-ASCII Unicode white space around parameters is outside the model"],
+}
+PROPS["C16"] = {
+    "modules": ["Gws.Props.C16"],
+    "theorems": ["Utf8.write_gate", "Utf8.write_gate_bytes", "Utf8.split_invariant", "Utf8.binary_never_checked", "Utf8.check_off_never_rejects"],
+    "suites": ["utf8", "read"],
+    "trusted": ["unicode/utf8.Valid decides RFC 3629 well-formedness (Spec.Utf8.valid): compared exhaustively on every byte string of length <= 3 on every run"],
+}
+
 EXTRA = {}
